@@ -573,6 +573,9 @@ impl<'a> Exec<'a> {
             }
             Ref::Lit { kind, codec, bytes } => {
                 Stats::bump(&mut self.stats.faults, "literal_bytes_delivery");
+                // this decode is the harness identifying the literal, not the party using it:
+                // the external-key seam neither counts nor fails it
+                crate::seams::hsm_pause(true);
                 let canon = match self.s.decode(*kind, *codec, &bytes.0) {
                     Ok(it) => self.s.encode(&it, Codec::Native).ok(),
                     Err(f) => {
@@ -605,6 +608,7 @@ impl<'a> Exec<'a> {
                     }
                     (c, _) => c,
                 };
+                crate::seams::hsm_pause(false);
                 self.wire.push((*kind, bytes.0.clone()));
                 Some(Resolved {
                     item: Item::bytes(*kind, *codec, bytes.0.clone()),
